@@ -119,7 +119,13 @@ func sqlC09(args []string) error {
 		tables := []*tableDef{}
 		maxRanks := map[string]int{}
 		addTable := func() {
-			t := randSchema(rng, fmt.Sprintf("t%d_%d", sc, len(tables)))
+			nm := fmt.Sprintf("t%d_%d", sc, len(tables))
+			if ctx == "C10" && len(tables)%2 == 1 {
+				// every second table of a C10 scenario has a name with capital letters (the catalog keys tables by the
+				// lower-cased name; seeded change C10r5-A persists the spelling as written and loses the table at reload)
+				nm = fmt.Sprintf("Tab%d_%dX", sc, len(tables))
+			}
+			t := randSchema(rng, nm)
 			if ctx == "C10" && rng.Intn(3) == 0 {
 				// up to four columns of any type
 				t.cols = append(t.cols, []string{"int", "float", "varchar"}[rng.Intn(3)])
